@@ -339,29 +339,89 @@ def r5(ctx: Ctx, mp: FuncInfo, ps: FuncInfo) -> None:
     app = [c for c in afl.calls('append') if src(c.func) == 'self.rules.append']
     if not build or not app:
         ctx.unknown('C17.R5', add, 'rule construction / append not found')
-    guards = {'match': "'match_expr' not in rule_data", 'category-or-tags': 'not has_category and not has_tags'}
-    for what, test in guards.items():
-        ifs = [s for s in cfg.stmts() if isinstance(s, ast.If) and src(s.test).replace('(', '').replace(')', '') == test]
-        ok = bool(ifs) and isinstance(ifs[0].body[-1], ast.Raise) and cfg.dominates(ifs[0], afl.stmt_of(build[0]))
-        ctx.check(ok, 'C17.R5', add, f'required:{what}', f'a rule without {what} raises before the rule is built', f'a rule without {what} is accepted', ifs[0] if ifs else None)
-    # has_category / has_tags mean non-empty
-    hc = [s for s in cfg.stmts() if isinstance(s, ast.Assign) and src(s.targets[0]) in ('has_category', 'has_tags')]
-    ok = len(hc) == 2 and all(src(s.value).replace(' ', '') in ("'category'inrule_dataandrule_data['category']", "'tags'inrule_dataandrule_data['tags']") for s in hc)
-    ctx.check(ok, 'C17.R5', add, 'required:non-empty', 'category / tags must be present and non-empty', f'presence tests are {[src(s.value) for s in hc]}')
+    bst = afl.stmt_of(build[0])
+    blits = cfg.guard_literals(bst)
+    # (a) a rule without match: never reaches the construction
+    ok = ("'match_expr' in rule_data", True) in blits or any(tr and t.replace(' ', '') in ("rule_data.get('match_expr')",) for t, tr in blits)
+    ctx.check(ok, 'C17.R5', add, 'required:match', 'a rule without match raises before the rule is built', 'a rule without match is accepted', bst)
+    # (b) … nor one with neither a category nor tags.  Decided by truth table over C = "category present and non-empty", T = "tags present and non-empty":
+    # the conjunction of the guards that mention them must be equivalent to C or T, whichever way it is spelled (flags, De Morgan, .get()).
+    def resolve(e):
+        if isinstance(e, ast.Name):
+            ds = [d for d in cfg.defs_reaching(bst, e.id) if d != 'param']
+            if len(ds) == 1 and getattr(cfg.stmt[ds[0]], 'value', None) is not None:
+                return cfg.stmt[ds[0]].value
+        return e
+
+    def fn(e):
+        """boolean function of (C, T) denoted by e, or None"""
+        e = resolve(e)
+        t = src(e).replace(' ', '')
+        for sym, key in (('C', 'category'), ('T', 'tags')):
+            if t in (f"'{key}'inrule_dataandrule_data['{key}']", f"rule_data.get('{key}')", f"bool(rule_data.get('{key}'))", f"'{key}'inrule_dataandbool(rule_data['{key}'])"):
+                return lambda env, s_=sym: env[s_]
+        if isinstance(e, ast.UnaryOp) and isinstance(e.op, ast.Not):
+            f1 = fn(e.operand)
+            return None if f1 is None else (lambda env: not f1(env))
+        if isinstance(e, ast.BoolOp):
+            fs = [fn(v) for v in e.values]
+            if any(f_ is None for f_ in fs):
+                return None
+            return (lambda env: all(f_(env) for f_ in fs)) if isinstance(e.op, ast.And) else (lambda env: any(f_(env) for f_ in fs))
+        return None
+    rel = []
+    for atom, truth in cfg.guard_atoms(bst):
+        if any(isinstance(n, ast.Constant) and n.value in ('category', 'tags') for n in ast.walk(resolve(atom))) or \
+                any(isinstance(n, ast.Name) and ('category' in n.id or 'tags' in n.id) for n in ast.walk(atom)):
+            f_ = fn(atom)
+            if f_ is None:
+                ctx.unknown('C17.R5', add, f'guard {src(atom)[:50]!r} on category / tags is not a boolean combination of presence tests')
+            rel.append((f_, truth))
+    envs = [{'C': c, 'T': t} for c in (False, True) for t in (False, True)]
+    table = [all(f_(env) == truth for f_, truth in rel) for env in envs] if rel else [True] * 4
+    want = [env['C'] or env['T'] for env in envs]
+    ctx.check(table == want, 'C17.R5', add, 'required:category-or-tags', 'a rule with neither a non-empty category nor non-empty tags raises before the rule is built',
+              'a rule without category-or-tags is accepted' if any(t_ and not w for t_, w in zip(table, want)) else 'a rule that has a category or tags is rejected', bst)
     # one rule per section: _add_rule called at each header and after the loop, append exactly once
-    ctx.check(len(app) == 1 and parent(afl.stmt_of(app[0])) is add.node, 'C17.R5', add, 'one-rule', 'each section yields exactly one rule', 'the rule append is conditional or repeated')
-    # parse(): malformed arms raise
+    in_loop = any(isinstance(a, (ast.For, ast.While)) for a in ancestors(app[0]))
+    ctx.check(len(app) == 1 and not in_loop and cfg.dominates(bst, afl.stmt_of(app[0])), 'C17.R5', add, 'one-rule',
+              'each section yields exactly one rule', 'the rule append is conditional or repeated')
+    # parse(): malformed arms raise.  Arms are recognised by the branch outcomes that lead to the raise, not by the message text.
     loop = _line_loop(ctx, mp)
-    text_arms = {'unknown-key': 'Unknown property', 'bad-let': 'Invalid let syntax', 'bad-field': 'Invalid field syntax', 'bad-priority': 'Invalid priority value',
-                 'empty-name': 'Empty rule name', 'junk-in-rule': 'Unexpected content in rule'}
-    for what, msg in text_arms.items():
-        raises = [r for r in ast.walk(loop) if isinstance(r, ast.Raise) and msg in src(r)]
-        ctx.check(bool(raises), 'C17.R5', mp, f'rejects:{what}', f'{what}: raises MerchantParseError ({msg!r})', f'{what} is no longer rejected', loop)
-    # each known key stores into the like-named slot
+    pfl = get_flow(proj, mp)
+    raises = [(r, dict(pfl.cfg.guard_literals_within(r, loop))) for r in pfl.cfg.stmts() if isinstance(r, ast.Raise) and any(a is loop for a in ancestors(r))]
+
+    def has_raise(pred):
+        return any(pred(g) for _r, g in raises)
+    key_true = lambda g, k: g.get(f"key == '{k}'") is True
+    arms = {
+        'bad-let': lambda g: key_true(g, 'let'),
+        'bad-field': lambda g: key_true(g, 'field'),
+        'bad-priority': lambda g: key_true(g, 'priority'),
+        'unknown-key': lambda g: sum(1 for t, tr in g.items() if t.startswith('key ') and tr is False) >= 2 and not any(t.startswith('key ') and tr is True for t, tr in g.items()),
+        'empty-name': lambda g: any(tr is False and t in ('rule_name',) for t, tr in g.items()) or any(tr is True and t.replace(' ', '') in ('notrule_name', "rule_name==''") for t, tr in g.items()),
+        'junk-in-rule': lambda g: not any(t.startswith('key ') for t in g) and any("':' in stripped" in t and tr is False for t, tr in g.items()),
+    }
+    for what, pred in arms.items():
+        ctx.check(has_raise(pred), 'C17.R5', mp, f'rejects:{what}', f'{what}: raises', f'{what} is no longer rejected', loop)
+    # each known key stores into the like-named slot (directly, or through a constant key -> slot table)
+    from ._tables import table_of
+    mapping = {}
+    for n in ast.walk(loop):
+        if isinstance(n, ast.Assign) and len(n.targets) == 1 and isinstance(n.targets[0], ast.Subscript) and src(n.targets[0].value) == 'current_rule':
+            g = dict(pfl.cfg.guard_literals_within(n, loop))
+            sl = n.targets[0].slice
+            if isinstance(sl, ast.Constant):
+                for t, tr in g.items():
+                    if tr is True and t.startswith("key == '"):
+                        mapping.setdefault(t[8:-1], set()).add(sl.value)
+            else:
+                tb = table_of(sl, mp.module)
+                if tb is not None and src(tb[1]) == 'key' and src(n.value) == 'value':
+                    for k_, v_ in tb[0].items():
+                        mapping.setdefault(k_, set()).add(v_)
     for key, slot in (('match', 'match_expr'), ('category', 'category'), ('subcategory', 'subcategory'), ('merchant', 'merchant'), ('tags', 'tags'), ('priority', 'priority')):
-        ifs = [s for s in ast.walk(loop) if isinstance(s, ast.If) and src(s.test) == f"key == '{key}'"]
-        ok = bool(ifs) and any(isinstance(n, ast.Assign) and src(n.targets[0]) == f"current_rule['{slot}']" for n in ast.walk(ast.Module(body=ifs[0].body, type_ignores=[])))
-        ctx.check(ok, 'C17.R5', mp, f'stores:{key}', f'{key}: stored as {slot}', f'property {key!r} is not stored into {slot!r}')
+        ctx.check(mapping.get(key) == {slot}, 'C17.R5', mp, f'stores:{key}', f'{key}: stored as {slot}', f'property {key!r} is stored into {sorted(mapping.get(key, []))} (expected {slot!r})')
     build_kw = {k.arg: src(k.value) for k in build[0].keywords}
     want = {'name': "rule_data['name']", 'match_expr': "rule_data['match_expr']", 'category': "rule_data.get('category', '')", 'subcategory': "rule_data.get('subcategory', '')",
             'merchant': "rule_data.get('merchant', '')", 'tags': "rule_data.get('tags', set())", 'priority': "rule_data.get('priority', 50)"}
@@ -372,12 +432,12 @@ def r5(ctx: Ctx, mp: FuncInfo, ps: FuncInfo) -> None:
     apps = [c for c in sfl.calls('append') if src(c.func) == 'sections.append']
     ok = len(apps) == 2
     for c in apps:
+        # the append is reached only when the view's filter is non-empty: `if not view.filter_expr: raise` dominates it, whatever the block structure
         lits = sfl.cfg.guard_literals(sfl.stmt_of(c))
-        # reached only past the `if not current_section.filter_expr: raise`
-        blk = parent(sfl.stmt_of(c))
-        sibs = blk.body if hasattr(blk, 'body') else []
-        prev = [s for s in sibs if isinstance(s, ast.If) and src(s.test) == 'not current_section.filter_expr' and isinstance(s.body[-1], ast.Raise)]
-        ok = ok and bool(prev)
+        arg = src(c.args[0]) if c.args else '?'
+        has = (f'{arg}.filter_expr', True) in lits
+        raises = [r for r in sfl.cfg.stmts() if isinstance(r, ast.Raise) and (f'{arg}.filter_expr', False) in sfl.cfg.guard_literals(r)]
+        ok = ok and has and bool(raises)
     ctx.check(ok, 'C17.R5', ps, 'required:filter', 'a view without filter raises before it is added (both at the next header and at end of file)', 'a view without filter can be added')
     for what, msg in (('filter-outside', 'filter: found outside of a section'), ('description-outside', 'description: found outside of a section'), ('unknown-line', 'Unexpected content')):
         raises = [r for r in ast.walk(ps.node) if isinstance(r, ast.Raise) and msg in src(r)]
